@@ -1051,4 +1051,59 @@ def engineDecode (own : Bool) (vt : TVType) (raw : Option (List Byte)) : Res Tag
         let n := (C12.bytesToInt64 b).toInt
         .ok (.ts (Int.tdiv n 1000000000) (Int.tmod n 1000000000))
 
+/-! ## 9. measure column values (`banyand/measure/column.go`)
+
+Same building blocks as the tag encoder, but the fallback carries two header bytes:
+`[EncodeTypePlain][EncodeTypeDictionary | EncodeTypePlain] …` (`doEncodeDefault` = `encodeDefault` + prefix). -/
+
+def encodeInt64Column (z : Zstd) (values : List Item) : Res (List Byte) :=
+  match scan8 values with
+  | .ok none => .ok (mtPlain :: (encodeDefaultTagValues z values).1)
+  | .ok (some vs) =>
+    match int64ListToBytes (vs.map C12.bytesToInt64) with
+    | .ok (bs, mt, first) => .ok (mt :: (C12.int64ToBytes first ++ bs))
+    | .err => .err
+    | .panic => .panic
+  | .err => .err
+  | .panic => .panic
+
+def encodeFloat64Column (z : Zstd) (fd : FloatDec) (values : List Item) : Res (List Byte) :=
+  match scan8 values with
+  | .ok none => .ok (mtPlain :: (encodeDefaultTagValues z values).1)
+  | .ok (some vs) =>
+    match float64ListToDecimalIntList fd (vs.map fun v => BitVec.ofNat 64 (ofBE v)) with
+    | .err => .ok (mtPlain :: (encodeDefaultTagValues z values).1)
+    | .panic => .panic
+    | .ok (ds, exp) =>
+      match int64ListToBytes ds with
+      | .ok (bs, mt, first) => .ok (mt :: (beBytes 2 exp.toNat ++ C12.int64ToBytes first ++ bs))
+      | .err => .err
+      | .panic => .panic
+  | .err => .err
+  | .panic => .panic
+
+def encodeColumn (z : Zstd) (fd : FloatDec) (values : List Item) (vt : VType) : Res (List Byte) :=
+  match vt with
+  | .int64 => encodeInt64Column z values
+  | .float64 => encodeFloat64Column z fd values
+  | .other => .ok (encodeDefaultTagValues z values).1
+
+/-- `decodeDefault`: `bb.Buf[0]` faults on an empty buffer. -/
+def decodeDefaultColumn (z : Zstd) (buf : List Byte) (n : Nat) : Res (List Item) :=
+  match buf with
+  | [] => .panic
+  | _ :: _ => decodeDefaultTagValues z buf n
+
+def decodeColumn (z : Zstd) (fd : FloatDec) (buf : List Byte) (vt : VType) (n : Nat) : Res (List Item) :=
+  match vt with
+  | .other => decodeDefaultColumn z buf n
+  | .int64 =>
+    match buf with
+    | [] => .panic
+    | t :: body => if t = mtPlain then decodeDefaultColumn z body n else decodeInt64TagValues z buf n
+  | .float64 =>
+    match buf with
+    | [] => .panic
+    | t :: body => if t = mtPlain then decodeDefaultColumn z body n else decodeFloat64TagValues z fd buf n
+
 end Banyan.C11
